@@ -592,6 +592,7 @@ impl<'a> ExpandedSelection<'a> {
                 let item = quote! {
                     #response_derives
                     #[serde(tag = "__typename")]
+                    #[serde(crate = #serde_path)]
                     pub enum #struct_name {
                         #(#on_variants),*
                     }
@@ -608,6 +609,7 @@ impl<'a> ExpandedSelection<'a> {
                 let on_enum = quote!(
                     #response_derives
                     #[serde(tag = "__typename")]
+                    #[serde(crate = #serde_path)]
                     pub enum #enum_name {
                         #(#on_variants,)*
                     }
